@@ -36,7 +36,7 @@ func init() {
 			}
 			return []runner.Phase{
 				{Name: "frames", Variant: "plain", Cases: nf, Run: c05frameCase, CaseTimeout: 120 * time.Second,
-					Required: []string{"frames_mutated", "mut_truncate", "mut_field", "mut_header", "mut_flip", "mut_random", "parse_errors", "parse_accepted", "rows_iterated"}},
+					Required: []string{"frames_mutated", "mut_truncate", "mut_field", "mut_header", "mut_flip", "mut_random", "parse_errors", "parse_accepted", "rows_iterated", "short_rowsets"}},
 				{Name: "values", Variant: "plain", Cases: nv, Run: c05valueCase, CaseTimeout: 120 * time.Second,
 					Required: []string{"values_mutated", "unmarshal_errors", "unmarshal_accepted"}},
 				{Name: "type-strings", Variant: "plain", Cases: nt, Run: c05typeStringCase, CaseTimeout: 120 * time.Second,
@@ -44,7 +44,7 @@ func init() {
 				{Name: "schema-rows", Variant: "plain", Cases: nt, Run: c05schemaCase, CaseTimeout: 120 * time.Second,
 					Required: []string{"schema_row_sets"}},
 				{Name: "sessions", Variant: "race", Cases: ns, Run: c05sessionCase, CaseTimeout: 120 * time.Second,
-					Required: []string{"sessions", "unexpected_in_handshake", "unexpected_reply_to_request", "hostile_events", "mutated_replies"}},
+					Required: []string{"sessions", "unexpected_in_handshake", "unexpected_reply_to_request", "hostile_events", "mutated_replies", "sessions_with_event_classes_disabled", "events_on_unregistered_connection"}},
 			}
 		},
 	})
@@ -69,6 +69,40 @@ func c05stack() string {
 		}
 	}
 	return strings.Join(out, " <- ")
+}
+
+// c05bounded runs fn like c05allocated, but watches the heap while it runs: when it has grown by more than
+// capBytes, onRunaway is called (to record the violation) and the worker process is replaced - code that
+// allocates without bound cannot be stopped any other way, and letting it run would take the machine down.
+func c05bounded(c *runner.Ctx, capBytes uint64, onRunaway func(grown uint64), fn func()) uint64 {
+	var a runtime.MemStats
+	runtime.ReadMemStats(&a)
+	stop := make(chan struct{})
+	done := make(chan struct{})
+	go func() {
+		defer close(done)
+		t := time.NewTicker(5 * time.Millisecond)
+		defer t.Stop()
+		for {
+			select {
+			case <-stop:
+				return
+			case <-t.C:
+				var m runtime.MemStats
+				runtime.ReadMemStats(&m)
+				if m.TotalAlloc-a.TotalAlloc > capBytes && m.HeapAlloc > a.HeapAlloc && m.HeapAlloc-a.HeapAlloc > capBytes/2 {
+					onRunaway(m.TotalAlloc - a.TotalAlloc)
+					c.AbortWorker()
+				}
+			}
+		}
+	}()
+	fn()
+	close(stop)
+	<-done
+	var b runtime.MemStats
+	runtime.ReadMemStats(&b)
+	return b.TotalAlloc - a.TotalAlloc
 }
 
 func c05allocated(fn func()) uint64 {
@@ -293,10 +327,7 @@ func c05drain(it *gocql.Iter, how int) (rowsRead int, pan interface{}) {
 		}
 		it.Close()
 	case 2:
-		if it.NumRows() > maxRows {
-			// SliceMap would try to collect them all
-			return c05drain(it, 0)
-		}
+		// SliceMap collects every row the iterator yields; the caller (c05bounded) cuts a run-away short
 		ms, _ := it.SliceMap()
 		rowsRead = len(ms)
 	default:
@@ -321,6 +352,25 @@ func c05frameCase(c *runner.Ctx, i int) {
 	r := c.Rng
 	version, frame, fields, name, _ := c05base(r, i, 0)
 	mut, class, detail := c05mutate(r, version, frame, fields, i/12)
+	if i%61 == 5 {
+		// a row set that claims more rows than it holds, including the degenerate shape with no columns at all
+		// (every "row" is then zero bytes long, so the body never runs out)
+		version = 1 + r.Intn(5)
+		ncols := r.Intn(3)
+		nrows := []int64{1, 3, 65536, 1 << 24, 0x7fffffff}[r.Intn(5)]
+		var cols []cqlref.Column
+		for k := 0; k < ncols; k++ {
+			cols = append(cols, cqlref.Column{Keyspace: "ks", Table: "t", Name: fmt.Sprintf("c%d", k), Type: &cqlref.Type{ID: cqlref.TInt}})
+		}
+		w := cqlref.BodyRows(version, &cqlref.RowsSpec{Meta: cqlref.Metadata{Global: true, Columns: cols, ColCount: ncols}})
+		binary.BigEndian.PutUint32(w.B[len(w.B)-4:], uint32(nrows))
+		for k := r.Intn(3) * ncols; k > 0; k-- {
+			w.Bytes([]byte{0, 0, 0, byte(k)})
+		}
+		frame, _ = cqlref.BuildFrame(version, 1, cqlref.OpResult, nil, w, nil)
+		mut, class, detail, name = frame, "short-rowset", fmt.Sprintf("%d columns, rows_count %d, %d row bytes", ncols, nrows, len(w.B)), "rows-handmade"
+		c.Add("short_rowsets", 1)
+	}
 	if class == "" {
 		return
 	}
@@ -360,9 +410,11 @@ func c05frameCase(c *runner.Ctx, i int) {
 			}
 			var n int
 			var dpan interface{}
-			alloc := c05allocated(func() { n, dpan = c05drain(pp.Iter, how) })
-			c.Add("rows_iterated", int64(n))
 			cons := []string{"Scan", "MapScan", "SliceMap", "Scanner"}[how]
+			alloc := c05bounded(c, 1<<30, func(grown uint64) {
+				c.Violation(fmt.Sprintf("C05:rows:%s:%s:allocation:unbounded", cons, class), fmt.Sprintf("%s over a %d-byte rows frame had allocated %d MiB and was still going (%s)", cons, len(mut), grown>>20, key), wit)
+			}, func() { n, dpan = c05drain(pp.Iter, how) })
+			c.Add("rows_iterated", int64(n))
 			if dpan != nil {
 				c.Violation(fmt.Sprintf("C05:rows:%s:%s:panic", cons, class), fmt.Sprintf("%s over a hostile rows result panicked in the caller's goroutine: %v (%s)", cons, dpan, key), wit)
 				return
